@@ -79,21 +79,17 @@ theorem headLine_header (c : Core) (n v : Bytes) (h1 : c.state = 1) (hn : (58 : 
   simp only [headLine, hs, if_false, hne, splitN_header n v hn, hascii, Bool.not_true,
     Bool.false_eq_true, hte, hcl]
 
-/-- the `Content-Length` header -/
-theorem headLine_clen (c : Core) (lt : Bytes) (len : Nat) (h1 : c.state = 1)
-    (hascii : lt.all (· < 128) = true) (hval : strip (32 :: lt) = lt) (hlen : parseDec lt = some len) :
-    headLine c (strCL ++ 58 :: 32 :: lt) =
-      .ok { c with clen := some len, headers := c.headers ++ [(strCL, lt)] } := by
+/-- the `Content-Length` header in any spelling -/
+theorem headLine_clen (c : Core) (n v : Bytes) (len : Nat) (h1 : c.state = 1) (hn : (58 : UInt8) ∉ n)
+    (hascii : (n ++ v).all (· < 128) = true) (hname : title (strip n) = strCL)
+    (hlen : parseDec (strip v) = some len) :
+    headLine c (n ++ 58 :: v) =
+      .ok { c with clen := some len, headers := c.headers ++ [(strCL, strip v)] } := by
   have hs : ¬ c.state = 0 := by omega
-  have hn : (58 : UInt8) ∉ strCL := by decide +kernel
-  have hne : strCL ++ 58 :: 32 :: lt ≠ [] := by simp [strCL]
-  have hname : title (strip strCL) = strCL := by decide +kernel
+  have hne : n ++ 58 :: v ≠ [] := by simp
   have hte : strCL ≠ strTE := by decide +kernel
-  have ha : (strCL ++ 32 :: lt).all (· < 128) = true := by
-    simp only [List.all_append, List.all_cons, hascii, Bool.and_true]
-    decide +kernel
-  simp only [headLine, hs, if_false, hne, splitN_header strCL (32 :: lt) hn, ha, Bool.not_true,
-    Bool.false_eq_true, hname, hval, hte, if_true, hlen]
+  simp only [headLine, hs, if_false, hne, splitN_header n v hn, hascii, Bool.not_true,
+    Bool.false_eq_true, hname, hte, if_true, hlen]
 
 /-- the empty line that ends the headers -/
 theorem headLine_blank (c : Core) (h1 : c.state = 1) : headLine c [] = .ok { c with state := 2 } := by
@@ -208,17 +204,14 @@ theorem strip_sp (l : Bytes) (hne : l ≠ []) (hh : isSpace (l.head hne) = false
   simp
 
 
-/-- the `Transfer-Encoding: chunked` header -/
-theorem headLine_te (c : Core) (h1 : c.state = 1) :
-    headLine c (strTE ++ 58 :: 32 :: strChunked) =
+/-- the `Transfer-Encoding: chunked` header in any spelling -/
+theorem headLine_te (c : Core) (n v : Bytes) (h1 : c.state = 1) (hn : (58 : UInt8) ∉ n)
+    (hascii : (n ++ v).all (· < 128) = true) (hname : title (strip n) = strTE) (hval : strip v = strChunked) :
+    headLine c (n ++ 58 :: v) =
       .ok { c with chunked := true, headers := c.headers ++ [(strTE, strChunked)] } := by
   have hs : ¬ c.state = 0 := by omega
-  have hn : (58 : UInt8) ∉ strTE := by decide +kernel
-  have hne : strTE ++ 58 :: 32 :: strChunked ≠ [] := by simp [strTE]
-  have hname : title (strip strTE) = strTE := by decide +kernel
-  have hval : strip (32 :: strChunked) = strChunked := by decide +kernel
-  have ha : (strTE ++ 32 :: strChunked).all (· < 128) = true := by decide +kernel
-  simp only [headLine, hs, if_false, hne, splitN_header strTE (32 :: strChunked) hn, ha, Bool.not_true,
+  have hne : n ++ 58 :: v ≠ [] := by simp
+  simp only [headLine, hs, if_false, hne, splitN_header n v hn, hascii, Bool.not_true,
     Bool.false_eq_true, hname, hval, if_true, beq_self_eq_true, Bool.or_true]
 
 /-- the parser's state after the header block of a written message -/
@@ -228,77 +221,73 @@ def WMsg.headCore (m : WMsg) (code : Nat) : Core :=
       | .length _ => some m.body.length
       | _ => none,
     chunked := match m.framing with
-      | .chunked _ => true
+      | .chunked _ _ => true
       | _ => false }
 
 /-- ... and after the whole message -/
 def WMsg.core (m : WMsg) (code : Nat) : Core :=
   match m.framing with
-  | .chunked _ => { m.headCore code with body := m.body, hadEmpty := true, state := 3 }
+  | .chunked _ _ => { m.headCore code with body := m.body, hadEmpty := true, state := 3 }
   | _ => { m.headCore code with body := m.body }
 
-theorem length_line_good (lt : Bytes) (n : Nat) (h : parseDec lt = some n) :
-    lt.all (· < 128) = true ∧ strip (32 :: lt) = lt ∧ noCRLF (strCL ++ 58 :: 32 :: lt) = true := by
-  obtain ⟨hne, hd⟩ := parseDec_digits lt n h
-  refine ⟨?_, ?_, ?_⟩
-  · exact List.all_eq_true.mpr (fun c hc => by simpa using (digit_props c (hd c hc)).2.1)
-  · exact strip_sp lt hne (digit_props _ (hd _ (List.head_mem hne))).2.2
-      (digit_props _ (hd _ (List.getLast_mem hne))).2.2
-  · apply noCRLF_of_no13
-    intro c hc
-    simp only [List.mem_append, List.mem_cons] at hc
-    rcases hc with hc | rfl | rfl | hc
-    · have : ∀ x ∈ strCL, x ≠ 13 := by decide +kernel
-      exact this c hc
-    · decide
-    · decide
-    · exact (digit_props c (hd c hc)).1
+def Framing.nlines : Framing → Nat
+  | .none => 0
+  | _ => 1
 
 theorem headLoop_write' (m : WMsg) (code : Nat) (g : Good m code) (rest : Bytes) (N : Nat) :
-    headLoop (N + 1 + 1 + m.headers.length + 1) ⟨{}, write m ++ rest⟩ =
+    headLoop (N + 1 + m.after.length + m.framing.nlines + m.headers.length + 1) ⟨{}, write m ++ rest⟩ =
       .ok ⟨m.headCore code, m.wireBody ++ rest⟩ := by
   have hst := headLine_status {} m.version m.codeText m.reason code rfl g.vsp g.csp g.ascii g.code
-  have h1 := headLoop_line (N + 1 + 1 + m.headers.length) {} _ (statusLine m)
-    (writeHeaders m.headers ++ (m.framing.lines ++ (crlf ++ m.wireBody) ++ rest))
+  have h1 := headLoop_line (N + 1 + m.after.length + m.framing.nlines + m.headers.length) {} _ (statusLine m)
+    (writeHeaders m.headers ++ (m.framing.lines ++ (writeHeaders m.after ++ (crlf ++ (m.wireBody ++ rest)))))
     (by decide) g.snocrlf hst
-  have hw : write m ++ rest = statusLine m ++ crlf ++ (writeHeaders m.headers ++ (m.framing.lines ++ (crlf ++ m.wireBody) ++ rest)) := by
+  have hw : write m ++ rest = statusLine m ++ crlf ++ (writeHeaders m.headers ++ (m.framing.lines ++ (writeHeaders m.after ++ (crlf ++ (m.wireBody ++ rest))))) := by
     simp [write, List.append_assoc]
   rw [hw, h1]
-  rw [headLoop_headers m.headers _ _ _ rfl g.hdrs]
+  rw [headLoop_headers m.headers _ _ _ rfl (fun h hh => g.hdrs h (by simp [hh]))]
+  have hga : ∀ h ∈ m.after, GoodHeader h := fun h hh => g.hdrs h (by simp [hh])
   have gf := g.framing
+  -- the tail shared by the three cases: the headers after the framing header, then the blank line
+  have tail : ∀ (c : Core), c.state = 1 →
+      headLoop (N + 1 + m.after.length) ⟨c, writeHeaders m.after ++ (crlf ++ (m.wireBody ++ rest))⟩ =
+        .ok ⟨{ c with headers := c.headers ++ m.after.map normHeader, state := 2 }, m.wireBody ++ rest⟩ := by
+    intro c hc
+    rw [headLoop_headers m.after c _ (N + 1) hc hga]
+    have hbl := headLine_blank { c with headers := c.headers ++ m.after.map normHeader } hc
+    have := headLoop_line N _ _ [] (m.wireBody ++ rest) (by simp [hc]) rfl hbl
+    simp only [List.nil_append] at this
+    rw [this, headLoop_done _ _ (by simp)]
   cases hfr : m.framing with
   | none =>
-    have hbl := headLine_blank { ({ version := m.version, code := code, state := 1 } : Core) with headers := [] ++ m.headers.map normHeader } rfl
-    have := headLoop_line (N + 1) _ _ [] (m.wireBody ++ rest) (by simp) rfl hbl
-    simp only [Framing.lines, Framing.header, List.nil_append, List.append_assoc] at this ⊢
-    rw [this, headLoop_done _ _ (by simp)]
-    simp [WMsg.headCore, WMsg.parsedHeaders, hfr, Framing.header]
-  | length lt =>
+    simp only [Framing.lines, Framing.raw, Framing.nlines, List.nil_append, Nat.add_zero]
+    rw [tail _ rfl]
+    simp [WMsg.headCore, WMsg.parsedHeaders, hfr, Framing.header, Framing.raw]
+  | length h =>
     rw [hfr] at gf
-    obtain ⟨ga, gv, gn⟩ := length_line_good lt _ gf
+    obtain ⟨gh, gname, glen⟩ := gf
+    simp only [normHeader] at gname glen
     have hcl := headLine_clen { ({ version := m.version, code := code, state := 1 } : Core) with headers := [] ++ m.headers.map normHeader }
-      lt m.body.length rfl ga gv gf
-    have h2 := headLoop_line (N + 1) _ _ (strCL ++ 58 :: 32 :: lt) (crlf ++ m.wireBody ++ rest) (by simp) gn hcl
-    have hbl := headLine_blank { ({ version := m.version, code := code, state := 1, clen := some m.body.length } : Core) with headers := [] ++ m.headers.map normHeader ++ [(strCL, lt)] } rfl
-    have h3 := headLoop_line N _ _ [] (m.wireBody ++ rest) (by simp) rfl hbl
-    simp only [Framing.lines, Framing.header, headerLine, List.nil_append, List.append_assoc] at h2 h3 ⊢
-    rw [h2, h3, headLoop_done _ _ (by simp)]
-    simp [WMsg.headCore, WMsg.parsedHeaders, hfr, Framing.header]
-  | chunked cs =>
-    have hte := headLine_te { ({ version := m.version, code := code, state := 1 } : Core) with headers := [] ++ m.headers.map normHeader } rfl
-    have gn : noCRLF (strTE ++ 58 :: 32 :: strChunked) = true := by decide +kernel
-    have h2 := headLoop_line (N + 1) _ _ (strTE ++ 58 :: 32 :: strChunked) (crlf ++ m.wireBody ++ rest) (by simp) gn hte
-    have hbl := headLine_blank { ({ version := m.version, code := code, state := 1, chunked := true } : Core) with headers := [] ++ m.headers.map normHeader ++ [(strTE, strChunked)] } rfl
-    have h3 := headLoop_line N _ _ [] (m.wireBody ++ rest) (by simp) rfl hbl
-    simp only [Framing.lines, Framing.header, headerLine, List.nil_append, List.append_assoc] at h2 h3 ⊢
-    rw [h2, h3, headLoop_done _ _ (by simp)]
-    simp [WMsg.headCore, WMsg.parsedHeaders, hfr, Framing.header]
+      h.1 h.2 m.body.length rfl gh.nocolon gh.ascii gname glen
+    have h2 := headLoop_line (N + 1 + m.after.length) _ _ (headerLine h) (writeHeaders m.after ++ (crlf ++ (m.wireBody ++ rest))) (by simp) gh.nocrlf hcl
+    simp only [Framing.lines, Framing.raw, Framing.nlines, List.append_assoc] at h2 ⊢
+    rw [h2, tail _ rfl]
+    simp [WMsg.headCore, WMsg.parsedHeaders, hfr, Framing.header, Framing.raw, normHeader, gname]
+  | chunked h cs =>
+    rw [hfr] at gf
+    obtain ⟨gh, gnorm, _, _⟩ := gf
+    simp only [normHeader, Prod.mk.injEq] at gnorm
+    have hte := headLine_te { ({ version := m.version, code := code, state := 1 } : Core) with headers := [] ++ m.headers.map normHeader }
+      h.1 h.2 rfl gh.nocolon gh.ascii gnorm.1 gnorm.2
+    have h2 := headLoop_line (N + 1 + m.after.length) _ _ (headerLine h) (writeHeaders m.after ++ (crlf ++ (m.wireBody ++ rest))) (by simp) gh.nocrlf hte
+    simp only [Framing.lines, Framing.raw, Framing.nlines, List.append_assoc] at h2 ⊢
+    rw [h2, tail _ rfl]
+    simp [WMsg.headCore, WMsg.parsedHeaders, hfr, Framing.header, Framing.raw, normHeader, gnorm.1, gnorm.2]
 
 /-- status line, headers and the blank line of a written message are consumed exactly -/
 theorem headLoop_write (m : WMsg) (code : Nat) (g : Good m code) (rest : Bytes) (fuel : Nat)
     (hf : (write m ++ rest).length < fuel) :
     headLoop fuel ⟨{}, write m ++ rest⟩ = .ok ⟨m.headCore code, m.wireBody ++ rest⟩ := by
-  rw [headLoop_fuel fuel ((write m ++ rest).length + 1 + 1 + m.headers.length + 1) _ hf (by simp; omega)]
+  rw [headLoop_fuel fuel ((write m ++ rest).length + 1 + m.after.length + m.framing.nlines + m.headers.length + 1) _ hf (by simp; omega)]
   exact headLoop_write' m code g rest _
 
 theorem parseHex_zero : parseHex [48] = some 0 := by decide
@@ -374,9 +363,9 @@ theorem norm_write (m : WMsg) (code : Nat) (g : Good m code) (rest : Bytes) :
       simp [WMsg.headCore, WMsg.core, WMsg.wireBody, hfr, bodyStep, pure, Except.pure, hl]
       show Except.ok _ = _
       simp [hl]
-  | chunked cs =>
+  | chunked fh cs =>
     rw [hfr] at gf
-    obtain ⟨hbody, hcs⟩ := gf
+    obtain ⟨_, _, hbody, hcs⟩ := gf
     have hcond : (m.headCore code).state = 2 ∧ (m.headCore code).chunked = true := by
       simp [WMsg.headCore, hfr]
     simp only [hcond, and_self, if_true, WMsg.wireBody, hfr]
@@ -397,7 +386,7 @@ theorem core_complete (m : WMsg) (code : Nat) (g : Good m code) : (m.core code).
   cases hfr : m.framing with
   | none => simp [WMsg.core, WMsg.headCore, Core.complete, hfr]
   | length lt => simp [WMsg.core, WMsg.headCore, Core.complete, hfr]
-  | chunked cs => simp [WMsg.core, WMsg.headCore, Core.complete, hfr]
+  | chunked fh cs => simp [WMsg.core, WMsg.headCore, Core.complete, hfr]
 
 theorem core_msg (m : WMsg) (code : Nat) : (m.core code).msg = m.msg code := by
   cases hfr : m.framing <;> simp [WMsg.core, WMsg.headCore, Core.msg, WMsg.msg, hfr]
@@ -545,14 +534,20 @@ theorem goodHeaderB_sound (h : Bytes × Bytes) (hb : goodHeaderB h = true) : Goo
   obtain ⟨⟨⟨⟨h1, h2⟩, h3⟩, h4⟩, h5⟩ := hb
   exact ⟨h1, h2, h3, h4, h5⟩
 
+theorem goodFramingHeaderB_sound (h : Bytes × Bytes) (hb : goodFramingHeaderB h = true) : GoodFramingHeader h := by
+  simp only [goodFramingHeaderB, Bool.and_eq_true, Bool.not_eq_true', List.contains_eq_mem, decide_eq_false_iff_not] at hb
+  exact ⟨hb.1.1, hb.1.2, hb.2⟩
+
 theorem framing_goodB_sound (f : Framing) (body : Bytes) (hb : f.goodB body = true) : f.Good body := by
   cases f with
   | none => simpa [Framing.goodB, Framing.Good] using hb
-  | length lt => simpa [Framing.goodB, Framing.Good] using hb
-  | chunked cs =>
+  | length h =>
+    simp only [Framing.goodB, Bool.and_eq_true, beq_iff_eq] at hb
+    exact ⟨goodFramingHeaderB_sound h hb.1.1, hb.1.2, hb.2⟩
+  | chunked h cs =>
     simp only [Framing.goodB, Bool.and_eq_true, beq_iff_eq, List.all_eq_true, Bool.not_eq_true',
       List.isEmpty_eq_false_iff] at hb
-    exact ⟨hb.1, fun c hc => hb.2 c hc⟩
+    exact ⟨goodFramingHeaderB_sound h hb.1.1.1, hb.1.1.2, hb.1.2, fun c hc => hb.2 c hc⟩
 
 /-- the executable check implies `Good` -/
 theorem goodB_sound (m : WMsg) (code : Nat) (hb : goodB m code = true) : Good m code := by
@@ -560,5 +555,6 @@ theorem goodB_sound (m : WMsg) (code : Nat) (hb : goodB m code = true) : Good m 
     beq_iff_eq, List.all_eq_true] at hb
   obtain ⟨⟨⟨⟨⟨⟨h1, h2⟩, h3⟩, h4⟩, h5⟩, h6⟩, h7⟩ := hb
   exact ⟨h1, h2, List.all_eq_true.mpr h3, h4, h5, fun h hh => goodHeaderB_sound h (h6 h hh), framing_goodB_sound _ _ h7⟩
+
 
 end HapVerif.Http
